@@ -262,6 +262,8 @@ class Collector(object):
         for i in xrange(len(items)):
             if items[i][1] == global_docnum:
                 items.pop(i)
+                # The document no longer counts as a match
+                self.docset.discard(global_docnum)
                 return
         raise KeyError(global_docnum)
 
@@ -493,6 +495,8 @@ class TopCollector(ScoredCollector):
     def remove(self, global_docnum):
         negated = 0 - global_docnum
         items = self.items
+        # The document no longer counts as a match
+        self.total -= 1
 
         # Remove the document if it's on the list (it may not be since
         # TopCollector forgets documents that don't make the top N list)
@@ -950,26 +954,35 @@ class CollapseCollector(WrappingCollector):
             self.orderer.set_searcher(subsearcher, offset)
 
     def all_ids(self):
-        child = self.child
         limit = self.limit
         counters = defaultdict(int)
+        keyer = self.keyer
+        leaves = self.top_searcher.leaf_searchers()
+        current = None
 
-        for subsearcher, offset in child.subsearchers():
-            self.set_subsearcher(subsearcher, offset)
-            matcher = child.matcher
-            keyer = self.keyer
-            for sub_docnum in child.matches():
-                ckey = keyer.key_for(matcher, sub_docnum)
-                if ckey is not None:
-                    if ckey in counters and counters[ckey] >= limit:
-                        continue
-                    else:
-                        counters[ckey] += 1
-                yield offset + sub_docnum
+        for global_docnum in self.child.all_ids():
+            # Find the sub-searcher the document belongs to
+            n = len(leaves) - 1
+            while n > 0 and leaves[n][1] > global_docnum:
+                n -= 1
+            subsearcher, offset = leaves[n]
+            if n != current:
+                keyer.set_searcher(subsearcher, offset)
+                current = n
+
+            sub_docnum = global_docnum - offset
+            ckey = keyer.key_to_name(keyer.key_for(None, sub_docnum))
+            if not (ckey is None or ckey == "" or ckey == b""):
+                if counters[ckey] >= limit:
+                    continue
+                else:
+                    counters[ckey] += 1
+            yield global_docnum
 
     def count(self):
         if self.child.computes_count():
-            return self.child.count() - self.collapsed_total
+            # The child only counted the documents that were not filtered out
+            return self.child.count()
         else:
             return ilen(self.all_ids())
 
@@ -1023,6 +1036,7 @@ class CollapseCollector(WrappingCollector):
 
     def results(self):
         r = self.child.results()
+        r.collector = self
         r.collapsed_counts = self.collapsed_counts
         return r
 
